@@ -69,11 +69,11 @@ struct AllocM {
 }
 
 pub struct View {
-    id: u32,
-    tag: u64,
-    data: usize,
-    heap: Option<usize>,
-    counts: Vec<(&'static str, usize)>,
+    pub id: u32,
+    pub tag: u64,
+    pub data: usize,
+    pub heap: Option<usize>,
+    pub counts: Vec<(&'static str, usize)>,
 }
 
 pub struct Stats {
@@ -112,7 +112,7 @@ struct W<'s, P: Pay + Send + Sync> {
 
 const NSLOTS: usize = 10;
 
-fn view<P: Pay + Send + Sync>(h: &H<P>) -> R<View> {
+pub fn view<P: Pay + Send + Sync>(h: &H<P>) -> R<View> {
     let mut counts: Vec<(&'static str, usize)> = Vec::new();
     let (id, tag, data, heap);
     macro_rules! rd {
@@ -265,6 +265,162 @@ fn view<P: Pay + Send + Sync>(h: &H<P>) -> R<View> {
         counts,
     })
 }
+
+/// Every clone-style way of obtaining one more owning handle from `src` (choice `r`).
+pub fn dup_handle<P: Pay + Send + Sync>(src: &H<P>, r: usize) -> (H<P>, &'static str) {
+    match src {
+    H::Arc(x) => match r {
+        0 => (H::Arc(x.clone()), "arc.clone"),
+        1 => (H::Arc(x.borrow_arc().clone_arc()), "arc.borrow_arc.clone_arc"),
+        2 => (H::Off(x.with_raw_offset_arc(|o| o.clone())), "arc.with_raw_offset_arc.clone"),
+        _ => (H::Arc(x.borrow_arc().with_arc(|y| y.clone())), "arc.borrow_arc.with_arc.clone"),
+    },
+    H::Off(x) => match r {
+        0 => (H::Off(x.clone()), "off.clone"),
+        1 => (H::Arc(x.clone_arc()), "off.clone_arc"),
+        2 => (H::Arc(x.with_arc(|y| y.clone())), "off.with_arc.clone"),
+        _ => (H::Arc(x.borrow_arc().clone_arc()), "off.borrow_arc.clone_arc"),
+    },
+    H::U1(x) => match r {
+        0 | 1 => (H::U1(x.clone()), "u1.clone"),
+        2 => (H::Arc(x.as_first().unwrap().clone_arc()), "u1.as_first.clone_arc"),
+        _ => match x.borrow() {
+            ArcUnionBorrow::First(b) => (H::Arc(b.clone_arc()), "u1.borrow.clone_arc"),
+            ArcUnionBorrow::Second(_) => unreachable!(),
+        },
+    },
+    H::U2(x) => match r {
+        0 | 1 => (H::U2(x.clone()), "u2.clone"),
+        2 => (H::Arc(x.as_second().unwrap().clone_arc()), "u2.as_second.clone_arc"),
+        _ => match x.borrow() {
+            ArcUnionBorrow::Second(b) => (H::Arc(b.clone_arc()), "u2.borrow.clone_arc"),
+            ArcUnionBorrow::First(_) => unreachable!(),
+        },
+    },
+    H::UU(x, sec) => match r {
+        0 | 1 => (H::UU(x.clone(), *sec), "uu.clone"),
+        _ => match x.borrow() {
+            ArcUnionBorrow::First(b) | ArcUnionBorrow::Second(b) => (H::Arc(b.clone_arc()), "uu.borrow.clone_arc"),
+        },
+    },
+    H::Uniq(_) => (H::Raw(std::ptr::null()), "none"),
+    H::Raw(p) => {
+        let b = unsafe { ArcBorrow::from_ptr(*p) };
+        match r {
+            0 | 1 => (H::Arc(b.clone_arc()), "raw.from_ptr.clone_arc"),
+            _ => (H::Arc(b.with_arc(|y| y.clone())), "raw.from_ptr.with_arc.clone"),
+        }
+    }
+    H::Dyn(x) => (H::Dyn(x.clone()), "dyn.clone"),
+    H::Hs(x) => (H::Hs(x.clone()), "hs.clone"),
+    #[cfg(feature = "full")]
+    H::Swap(c) => (H::Arc(shadow::untracked(|| c.load_full())), "swap.load_full"),
+}
+}
+
+/// Every consuming conversion of a handle into another kind (choice `r`); `None` = released.
+pub fn conv_handle<P: Pay + Send + Sync>(h: H<P>, r: usize, even: bool) -> (Option<H<P>>, &'static str) {
+    match h {
+        H::Arc(x) => match r {
+            0 => (Some(H::Off(Arc::into_raw_offset(x))), "arc->off"),
+            1 => (Some(H::U1(ArcUnion::from_first(x))), "arc->u1"),
+            2 => (Some(H::U2(ArcUnion::from_second(x))), "arc->u2"),
+            3 => (Some(H::Raw(Arc::into_raw(x))), "arc->raw"),
+            4 => {
+                #[cfg(feature = "full")]
+                {
+                    use unsize::CoerceUnsize;
+                    if even {
+                        let d: Arc<dyn Tr> = x.unsize(unsize::Coercion!(to dyn Tr));
+                        return (Some(H::Dyn(d)), "arc->dyn(unsize)");
+                    }
+                }
+                let p = Arc::into_raw(x) as *const dyn Tr;
+                (Some(H::Dyn(unsafe { Arc::from_raw(p) })), "arc->dyn(raw)")
+            }
+            5 => (Some(H::Hs(x.into())), "arc->hs"),
+            6 => {
+                #[cfg(feature = "full")]
+                {
+                    (Some(H::Swap(shadow::untracked(|| ArcSwapAny::new(x)))), "arc->swap")
+                }
+                #[cfg(not(feature = "full"))]
+                {
+                    (Some(H::UU(ArcUnion::from_second(x), true)), "arc->uu2")
+                }
+            }
+            _ => {
+                if even {
+                    (Some(H::UU(ArcUnion::from_first(x), false)), "arc->uu1")
+                } else {
+                    (Some(H::UU(ArcUnion::from_second(x), true)), "arc->uu2")
+                }
+            }
+        },
+        H::Off(x) => (Some(H::Arc(Arc::from_raw_offset(x))), "off->arc"),
+        H::U1(x) => {
+            // no consuming conversion exists: clone out as an Arc, then release the union
+            let y = x.as_first().unwrap().clone_arc();
+            drop(x);
+            (Some(H::Arc(y)), "u1->arc(clone_arc+drop)")
+        }
+        H::U2(x) => {
+            let y = x.as_second().unwrap().clone_arc();
+            drop(x);
+            (Some(H::Arc(y)), "u2->arc(clone_arc+drop)")
+        }
+        H::UU(x, _) => {
+            let y = match x.borrow() {
+                ArcUnionBorrow::First(b) | ArcUnionBorrow::Second(b) => b.clone_arc(),
+            };
+            drop(x);
+            (Some(H::Arc(y)), "uu->arc(clone_arc+drop)")
+        }
+        H::Uniq(x) => (Some(H::Arc(x.shareable())), "uniq->arc"),
+        H::Raw(p) => match r % 2 {
+            0 => (Some(H::Arc(unsafe { Arc::from_raw(p) })), "raw->arc"),
+            _ => {
+                // raw -> trait-object pointer -> Arc<dyn>
+                let d = p as *const dyn Tr;
+                (Some(H::Dyn(unsafe { Arc::from_raw(d) })), "raw->dyn")
+            }
+        },
+        H::Dyn(x) => {
+            // no way back to a sized handle: release
+            drop(x);
+            (None, "dyn.drop")
+        }
+        H::Hs(x) => (Some(H::Arc(x.into())), "hs->arc"),
+        #[cfg(feature = "full")]
+        H::Swap(c) => match r % 3 {
+            0 => (Some(H::Arc(shadow::untracked(|| c.into_inner()))), "swap->arc"),
+            1 => {
+                // store a clone of itself then swap it out: exercises store + swap on one allocation
+                let y = shadow::untracked(|| {
+                    let cur = c.load_full();
+                    c.store(cur.clone());
+                    let z = c.swap(cur);
+                    drop(z);
+                    c
+                });
+                (Some(H::Swap(y)), "swap.store+swap")
+            }
+            _ => (Some(H::Arc(shadow::untracked(|| c.into_inner()))), "swap->arc"),
+        },
+    }
+}
+
+/// Release an owning handle the way its kind is released.
+pub fn drop_handle<P: Pay + Send + Sync>(h: H<P>) {
+    match h {
+        H::Raw(p) => drop(unsafe { Arc::from_raw(p) }),
+        #[cfg(feature = "full")]
+        H::Swap(c) => shadow::untracked(|| drop(c)),
+        other => drop(other),
+    }
+}
+
+unsafe impl<P: Pay + Send + Sync> Send for H<P> {}
 
 impl<'s, P: Pay + Send + Sync> W<'s, P> {
     fn owners(&self, a: usize) -> usize {
@@ -614,54 +770,7 @@ impl<'s, P: Pay + Send + Sync> W<'s, P> {
         let before = self.owners(a);
         let (h, how): (H<P>, &'static str) = {
             let src = &self.slots[i].as_ref().unwrap().h;
-            shadow::tracked(|| match src {
-                H::Arc(x) => match r {
-                    0 => (H::Arc(x.clone()), "arc.clone"),
-                    1 => (H::Arc(x.borrow_arc().clone_arc()), "arc.borrow_arc.clone_arc"),
-                    2 => (H::Off(x.with_raw_offset_arc(|o| o.clone())), "arc.with_raw_offset_arc.clone"),
-                    _ => (H::Arc(x.borrow_arc().with_arc(|y| y.clone())), "arc.borrow_arc.with_arc.clone"),
-                },
-                H::Off(x) => match r {
-                    0 => (H::Off(x.clone()), "off.clone"),
-                    1 => (H::Arc(x.clone_arc()), "off.clone_arc"),
-                    2 => (H::Arc(x.with_arc(|y| y.clone())), "off.with_arc.clone"),
-                    _ => (H::Arc(x.borrow_arc().clone_arc()), "off.borrow_arc.clone_arc"),
-                },
-                H::U1(x) => match r {
-                    0 | 1 => (H::U1(x.clone()), "u1.clone"),
-                    2 => (H::Arc(x.as_first().unwrap().clone_arc()), "u1.as_first.clone_arc"),
-                    _ => match x.borrow() {
-                        ArcUnionBorrow::First(b) => (H::Arc(b.clone_arc()), "u1.borrow.clone_arc"),
-                        ArcUnionBorrow::Second(_) => unreachable!(),
-                    },
-                },
-                H::U2(x) => match r {
-                    0 | 1 => (H::U2(x.clone()), "u2.clone"),
-                    2 => (H::Arc(x.as_second().unwrap().clone_arc()), "u2.as_second.clone_arc"),
-                    _ => match x.borrow() {
-                        ArcUnionBorrow::Second(b) => (H::Arc(b.clone_arc()), "u2.borrow.clone_arc"),
-                        ArcUnionBorrow::First(_) => unreachable!(),
-                    },
-                },
-                H::UU(x, sec) => match r {
-                    0 | 1 => (H::UU(x.clone(), *sec), "uu.clone"),
-                    _ => match x.borrow() {
-                        ArcUnionBorrow::First(b) | ArcUnionBorrow::Second(b) => (H::Arc(b.clone_arc()), "uu.borrow.clone_arc"),
-                    },
-                },
-                H::Uniq(_) => (H::Raw(std::ptr::null()), "none"),
-                H::Raw(p) => {
-                    let b = unsafe { ArcBorrow::from_ptr(*p) };
-                    match r {
-                        0 | 1 => (H::Arc(b.clone_arc()), "raw.from_ptr.clone_arc"),
-                        _ => (H::Arc(b.with_arc(|y| y.clone())), "raw.from_ptr.with_arc.clone"),
-                    }
-                }
-                H::Dyn(x) => (H::Dyn(x.clone()), "dyn.clone"),
-                H::Hs(x) => (H::Hs(x.clone()), "hs.clone"),
-                #[cfg(feature = "full")]
-                H::Swap(c) => (H::Arc(shadow::untracked(|| c.load_full())), "swap.load_full"),
-            })
+            shadow::tracked(|| dup_handle(src, r))
         };
         if how == "none" {
             // a UniqueArc cannot be cloned; just inspect
@@ -681,96 +790,8 @@ impl<'s, P: Pay + Send + Sync> W<'s, P> {
         let slot = self.slots[i].take().unwrap();
         let r = self.rng.below(8);
         let owners = self.owners(a) + 1;
-        let mut released = false; // conversion that consumed the handle without a successor
-        let (h, how): (Option<H<P>>, &'static str) = shadow::tracked(|| match slot.h {
-            H::Arc(x) => match r {
-                0 => (Some(H::Off(Arc::into_raw_offset(x))), "arc->off"),
-                1 => (Some(H::U1(ArcUnion::from_first(x))), "arc->u1"),
-                2 => (Some(H::U2(ArcUnion::from_second(x))), "arc->u2"),
-                3 => (Some(H::Raw(Arc::into_raw(x))), "arc->raw"),
-                4 => {
-                    #[cfg(feature = "full")]
-                    {
-                        use unsize::CoerceUnsize;
-                        if owners % 2 == 0 {
-                            let d: Arc<dyn Tr> = x.unsize(unsize::Coercion!(to dyn Tr));
-                            return (Some(H::Dyn(d)), "arc->dyn(unsize)");
-                        }
-                    }
-                    let p = Arc::into_raw(x) as *const dyn Tr;
-                    (Some(H::Dyn(unsafe { Arc::from_raw(p) })), "arc->dyn(raw)")
-                }
-                5 => (Some(H::Hs(x.into())), "arc->hs"),
-                6 => {
-                    #[cfg(feature = "full")]
-                    {
-                        (Some(H::Swap(shadow::untracked(|| ArcSwapAny::new(x)))), "arc->swap")
-                    }
-                    #[cfg(not(feature = "full"))]
-                    {
-                        (Some(H::UU(ArcUnion::from_second(x), true)), "arc->uu2")
-                    }
-                }
-                _ => {
-                    if owners % 2 == 0 {
-                        (Some(H::UU(ArcUnion::from_first(x), false)), "arc->uu1")
-                    } else {
-                        (Some(H::UU(ArcUnion::from_second(x), true)), "arc->uu2")
-                    }
-                }
-            },
-            H::Off(x) => (Some(H::Arc(Arc::from_raw_offset(x))), "off->arc"),
-            H::U1(x) => {
-                // no consuming conversion exists: clone out as an Arc, then release the union
-                let y = x.as_first().unwrap().clone_arc();
-                drop(x);
-                (Some(H::Arc(y)), "u1->arc(clone_arc+drop)")
-            }
-            H::U2(x) => {
-                let y = x.as_second().unwrap().clone_arc();
-                drop(x);
-                (Some(H::Arc(y)), "u2->arc(clone_arc+drop)")
-            }
-            H::UU(x, _) => {
-                let y = match x.borrow() {
-                    ArcUnionBorrow::First(b) | ArcUnionBorrow::Second(b) => b.clone_arc(),
-                };
-                drop(x);
-                (Some(H::Arc(y)), "uu->arc(clone_arc+drop)")
-            }
-            H::Uniq(x) => (Some(H::Arc(x.shareable())), "uniq->arc"),
-            H::Raw(p) => match r % 2 {
-                0 => (Some(H::Arc(unsafe { Arc::from_raw(p) })), "raw->arc"),
-                _ => {
-                    // raw -> trait-object pointer -> Arc<dyn>
-                    let d = p as *const dyn Tr;
-                    (Some(H::Dyn(unsafe { Arc::from_raw(d) })), "raw->dyn")
-                }
-            },
-            H::Dyn(x) => {
-                // no way back to a sized handle: release
-                drop(x);
-                released = true;
-                (None, "dyn.drop")
-            }
-            H::Hs(x) => (Some(H::Arc(x.into())), "hs->arc"),
-            #[cfg(feature = "full")]
-            H::Swap(c) => match r % 3 {
-                0 => (Some(H::Arc(shadow::untracked(|| c.into_inner()))), "swap->arc"),
-                1 => {
-                    // store a clone of itself then swap it out: exercises store + swap on one allocation
-                    let y = shadow::untracked(|| {
-                        let cur = c.load_full();
-                        c.store(cur.clone());
-                        let z = c.swap(cur);
-                        drop(z);
-                        c
-                    });
-                    (Some(H::Swap(y)), "swap.store+swap")
-                }
-                _ => (Some(H::Arc(shadow::untracked(|| c.into_inner()))), "swap->arc"),
-            },
-        });
+        let (h, how): (Option<H<P>>, &'static str) = shadow::tracked(|| conv_handle(slot.h, r, owners % 2 == 0));
+        let released = h.is_none();
         self.log(format!("s{} : {}", i, how));
         self.st.counts.bump(&format!("edge.convert:{}", how));
         match h {
@@ -795,12 +816,7 @@ impl<'s, P: Pay + Send + Sync> W<'s, P> {
         let owners = self.owners(a) + 1;
         self.log(format!("drop s{} ({})", i, kind));
         self.st.counts.bump(&format!("op.drop:{}", kind));
-        shadow::tracked(|| match slot.h {
-            H::Raw(p) => drop(unsafe { Arc::from_raw(p) }),
-            #[cfg(feature = "full")]
-            H::Swap(c) => shadow::untracked(|| drop(c)),
-            other => drop(other),
-        });
+        shadow::tracked(|| drop_handle(slot.h));
         self.sig(a, &format!("drop:{}", kind));
         if owners == 1 {
             self.expect_dead(a, kind)?;
